@@ -113,6 +113,7 @@ type Universe struct {
 	Core       int  // size of the fixed core (all terms of depth <= 1)
 	Sampled    int  // seed-chosen depth-2 terms
 	Random     int  // seed-chosen deeper terms
+	Method     int  // terms with a component that declares its own Equal/Compare/Hash methods
 }
 
 // onlyByteLeaves: every leaf is uint8 and every map is int-keyed. Byte slices
@@ -197,4 +198,53 @@ func SelectUniverse(all []*Type, quick bool, seed int64, nQuick, nDeep int) *Uni
 		u.IDs = append(u.IDs, fmt.Sprintf("T%d", i+1))
 	}
 	return u
+}
+
+// AddMethodTypes appends the types with a method-bearing component (TLC's
+// MethTypes) to a universe: thorough = all of them; quick = a fixed core (M and
+// *M for every method kind under a slice, a map[int] and an exported field of a
+// local struct) plus nSample seed-chosen others.
+func (u *Universe) AddMethodTypes(meth []*Type, quick bool, seed int64, nSample int) {
+	isCore := func(t *Type) bool {
+		comp := func(c *Type) bool {
+			return c.Meth != "" || (c.K == "ptr" && c.E.Meth != "")
+		}
+		switch t.K {
+		case "slice":
+			return comp(t.E)
+		case "map":
+			return t.Key.K == "basic" && t.Key.B == "int" && comp(t.E)
+		case "struct":
+			return t.Meth == "" && t.Pkg == "local" && len(t.Fields) == 1 && exported(t.Fields[0].Name) && comp(t.Fields[0].T)
+		}
+		return false
+	}
+	var core, rest []*Type
+	for _, t := range meth {
+		if isCore(t) {
+			core = append(core, t)
+		} else {
+			rest = append(rest, t)
+		}
+	}
+	add := core
+	if quick {
+		rng := rand.New(rand.NewSource(seed*31 + 7))
+		idx := rng.Perm(len(rest))
+		if nSample > len(idx) {
+			nSample = len(idx)
+		}
+		idx = idx[:nSample]
+		sort.Ints(idx)
+		for _, i := range idx {
+			add = append(add, rest[i])
+		}
+	} else {
+		add = append(add, rest...)
+	}
+	u.Method = len(add)
+	for _, t := range add {
+		u.Types = append(u.Types, t)
+		u.IDs = append(u.IDs, fmt.Sprintf("T%d", len(u.Types)))
+	}
 }
